@@ -226,7 +226,7 @@ macro_rules! bytes_leaf_harness {
 }
 bytes_leaf_harness!(c09_bytes_leaf, Bytes, true);
 bytes_leaf_harness!(c09_address_leaf, Address, true);
-bytes_leaf_harness!(c09_hash_leaf, Hash, false);
+bytes_leaf_harness!(c09_hash_leaf, Hash, true);
 
 // Nested shapes (records with fields, lists, maps) are decided by engine M on the MIR of
 // compile_struct / try_as_data: under Kani the iterator machinery of
